@@ -34,4 +34,10 @@ def bool01 (s : String) : Option Bool :=
 
 def showBool (b : Bool) : String := if b then "1" else "0"
 
+def insertSorted (x : String) : List String → List String
+  | [] => [x]
+  | y :: ys => if x < y then x :: y :: ys else y :: insertSorted x ys
+
+def sortStrings (xs : List String) : List String := xs.foldl (fun acc x => insertSorted x acc) []
+
 end TV.Driver
